@@ -5,6 +5,7 @@ import SF.GenEq.Tactic
 set_option linter.unusedSimpArgs false
 set_option linter.unusedSectionVars false
 set_option linter.unusedVariables false
+set_option maxHeartbeats 400000
 /-! Translator tie for `Ema` (src/sliding_windows/ema.rs): the view generated from the Rust text = the model's `wrap A (emaCore N al)`,
 for every child view: same answers and same panics on every input.  (Table-driven: tools/mk_geneq.py.) -/
 namespace SF.GenEq.Ema
@@ -25,7 +26,7 @@ theorem upd_eq (A : View α) (s : State α A.σ) (x : α)  :
     (update A s x).map (abs A) = (wrap A (emaCore s.window_len s.alpha)).upd (abs A s) x := by
   simp only [update, wrap, mapV, binop, emaCore, abs]; gen_tie
 theorem upd_cfg (A : View α) (s s' : State α A.σ) (x : α) : update A s x = .ok s' → s'.window_len = s.window_len ∧ s'.alpha = s.alpha := by
-  simp only [update]; gen_tie
+  simp only [update, emaCore]; gen_tie
 theorem last_eq (A : View α) (s : State α A.σ)  : last A s = (wrap A (emaCore s.window_len s.alpha)).last (abs A s) := by
   simp only [last, wrap, mapV, binop, emaCore, abs]; gen_tie
 
@@ -36,14 +37,16 @@ def sim (A : View α) (N : Nat) (al : α)  : Sim (mkView (s0 A N al) (update A) 
   init_abs := by rfl
   upd := fun (s : State α A.σ) x hs => by
     obtain ⟨h0, h1⟩ := hs
-    rw [← h0, ← h1]; exact upd_eq A s x 
+    have := upd_eq A s x  
+    (try rw [h0] at this); (try rw [h1] at this); exact this
   upd_cfg := fun (s : State α A.σ) x s' hs h => by
     obtain ⟨h0, h1⟩ := hs
     have := upd_cfg A s s' x h
     simp_all
   last := fun (s : State α A.σ) hs => by
     obtain ⟨h0, h1⟩ := hs
-    rw [← h0, ← h1]; exact last_eq A s 
+    have := last_eq A s  
+    (try rw [h0] at this); (try rw [h1] at this); exact this
 
 /-- the Rust text of `Ema`, as translated, and the model agree on every input: same answers, same panics -/
 theorem tie (A : View α) (N : Nat) (al : α)  (xs : List α) :
